@@ -1,4 +1,13 @@
 import StepupModel.Proto
+import StepupModel.Drv.C01
+import StepupModel.Drv.C02
+import StepupModel.Drv.C03
+import StepupModel.Drv.C04
+import StepupModel.Drv.C05
+import StepupModel.Drv.C06
+import StepupModel.Drv.C07
+import StepupModel.Drv.C14
+import StepupModel.Drv.C19
 import StepupModel.Drv.C13
 import StepupModel.Drv.C15
 import StepupModel.Drv.C16
@@ -14,6 +23,15 @@ open StepupModel
 def dispatch (sess : Drv.K.Session) (line : String) : Drv.K.Session × String :=
   match line.splitOn " " with
   | "k" :: rest => (Drv.K.handle sess rest).getD (sess, "bad-op")
+  | "c01" :: rest => (sess, (Drv.C01.handle rest).getD "bad-op")
+  | "c02" :: rest => (sess, (Drv.C02.handle rest).getD "bad-op")
+  | "c03" :: rest => (sess, (Drv.C03.handle rest).getD "bad-op")
+  | "c04" :: rest => (sess, (Drv.C04.handle rest).getD "bad-op")
+  | "c05" :: rest => (sess, (Drv.C05.handle rest).getD "bad-op")
+  | "c06" :: rest => (sess, (Drv.C06.handle rest).getD "bad-op")
+  | "c07" :: rest => (sess, (Drv.C07.handle rest).getD "bad-op")
+  | "c14" :: rest => (sess, (Drv.C14.handle rest).getD "bad-op")
+  | "c19" :: rest => (sess, (Drv.C19.handle rest).getD "bad-op")
   | "c13" :: rest => (sess, (Drv.C13.handle rest).getD "bad-op")
   | "c15" :: rest => (sess, (Drv.C15.handle rest).getD "bad-op")
   | "c16" :: rest => (sess, (Drv.C16.handle rest).getD "bad-op")
